@@ -205,6 +205,8 @@ class solve_torchfcn(torch.autograd.Function):
                 with ctx.M.uselinopparams(*mparams):
                     Mx = ctx.M.mm(x)  # (*BABEM, nr, ncols)
             grad_E = torch.einsum('...rc,...rc->...c', v, Mx.conj())  # (*BABEM, ncols)
+            if not torch.is_complex(E):
+                grad_E = grad_E.real
 
         # calculate the gradient to the biases matrices
         grad_mparams = []
